@@ -16,7 +16,7 @@ import json, os, re, shutil, subprocess, sys, hashlib, random
 BIN = os.environ.get("LSMVERIF_BIN", "/verif/harness/target/release/lsmverif")
 DRV = os.environ.get("LSMDRV", "/verif/lean/.lake/build/bin/lsmdrv")
 SCRATCH = os.environ.get("LSMVERIF_SCRATCH", "/dev/shm/lsmverif" if os.path.isdir("/dev/shm") else "/tmp/lsmverif")
-TRACED = ["openat", "write", "fsync", "fdatasync", "renameat", "renameat2", "rename", "unlink", "unlinkat", "mkdir", "mkdirat"]
+TRACED = ["openat", "read", "pread64", "write", "fsync", "fdatasync", "renameat", "renameat2", "rename", "unlink", "unlinkat", "mkdir", "mkdirat"]
 PAR = int(os.environ.get("LSMVERIF_PAR", "12"))
 line_re = re.compile(r"^(\d+)\s+(\w+)\((.*)$")
 
@@ -76,6 +76,12 @@ class Trace:
                         ev.update(kind="create", path=r, extra=mm.group(2))
                     elif r is not None and ("O_WRONLY" in mm.group(2) or "O_RDWR" in mm.group(2)):
                         ev.update(kind="openw", path=r, extra=mm.group(2))
+                    elif r is not None and "O_DIRECTORY" not in mm.group(2) and (r.startswith("tables/") or r.startswith("blobs/")):
+                        ev.update(kind="openr", path=r, extra=mm.group(2))   # read-only open of a table / blob file (fault targets only)
+            elif name in ("read", "pread64"):
+                mm = re.match(r'\d+<([^>]+)>', rest)
+                if mm and rel(mm.group(1)) is not None and (rel(mm.group(1)).startswith("tables/") or rel(mm.group(1)).startswith("blobs/")):
+                    ev.update(kind="read", path=rel(mm.group(1)))              # read of a table / blob file (fault targets only)
             elif name == "write":
                 mm = re.match(r'\d+<([^>]+)>, "((?:[^"\\]|\\.)*)"(\.\.\.)?, (\d+)', rest)
                 if mm and rel(mm.group(1)) is not None:
@@ -99,8 +105,8 @@ class Trace:
             self.events.append(ev)
         self.total = n
 
-    def tree_events(self):
-        return [e for e in self.events if e["kind"]]
+    def tree_events(self, reads=False):
+        return [e for e in self.events if e["kind"] and (reads or e["kind"] not in ("openr", "read"))]
 
 
 def run_traced(tree, workload, blob, mode="run", inject=None, log=None, extra=None):
@@ -371,7 +377,7 @@ def cmd_fault(args):
         if "FINAL failures=0 reopen=ok" not in out:
             st["disagreements"].append("fault-free reference run is not clean: " + out[-400:])
             return result(st)
-        targets = [e for e in tr.tree_events() if e["op"] is not None and e["kind"] in ("create", "write", "fsync", "rename", "unlink", "mkdir", "openw")]
+        targets = [e for e in tr.tree_events(reads=True) if e["op"] is not None and e["kind"] in ("create", "write", "fsync", "rename", "unlink", "mkdir", "openw", "openr", "read")]
         if stride > 1:
             targets = [e for i, e in enumerate(targets) if (i - seed) % stride == 0 or e["kind"] in ("rename",)]
         seen = set()
